@@ -30,6 +30,7 @@ pub fn run(cfg: &Cfg) -> i32 {
     gc.thread_boost = true;
     gc.divert_global = true;
     gc.call_mid_expression_boost = true;
+    gc.thread_fallbacks = true;
     let opts = CmpOpts::default();
     let mut sampled = 0;
     for i in 0..nprog {
@@ -89,6 +90,8 @@ pub fn run(cfg: &Cfg) -> i32 {
                     .iter()
                     .map(|t| match t {
                         Ty::Str => Val::Str(format!("arg{}", rng.below(3))),
+                        // a bool from the host must arrive as a bool (it prints as true / false)
+                        _ if rng.chance(1, 5) => Val::Bool(rng.chance(1, 2)),
                         _ => Val::Int(rng.below(7) as i32 - 1),
                     })
                     .collect();
